@@ -144,13 +144,19 @@ def _connect_interp(ctx, extra=None, secure=None):
     return Interp(idx, Config(stubs=stubs))
 
 
-def connect_paths(ctx, proxy_kind="none", socket_given=False, secure=None):
-    key = f"c18:connect:{proxy_kind}:{socket_given}:{secure}"
+def connect_paths(ctx, proxy_kind="none", socket_given=False, secure=None, have_ssl=True):
+    key = f"c18:connect:{proxy_kind}:{socket_given}:{secure}:{have_ssl}"
     if key in ctx.cache:
         return ctx.cache[key]
     I = _connect_interp(ctx, secure=secure)
 
     def body(run):
+        if not have_ssl:
+            # an interpreter built without the ssl module: _ssl_compat sets HAVE_SSL = False and _http imported that value
+            env = I.module_env(run, "_http")
+            if "HAVE_SSL" not in env.vars:
+                raise AnalysisError("anchor vanished: _http.HAVE_SSL")
+            env.vars["HAVE_SSL"] = FALSE
         opts = new_obj(run, "_socket:sock_opt", "sockopt", sockopt=Sym("o.sockopt"), sslopt=Sym("o.sslopt"), timeout=Sym("o.timeout"))
         if proxy_kind == "none":
             px = new_obj(run, "_http:proxy_info", "proxy", proxy_host=NONE, proxy_port=C(0), auth=NONE, no_proxy=NONE, proxy_protocol=C("http"))
@@ -162,6 +168,27 @@ def connect_paths(ctx, proxy_kind="none", socket_given=False, secure=None):
     outs = ctx.count_paths(I.explore(body))
     ctx.cache[key] = (I, outs)
     return I, outs
+
+
+def no_tls_refused(ctx):
+    """Without TLS support a wss:// target must be refused -- never connected in clear text."""
+    for pk in ("none", "http"):
+        I, outs = connect_paths(ctx, pk, secure=True, have_ssl=False)
+        bad = None
+        n = 0
+        for o in outs:
+            refused = any(d.text == "parse_url refuses the url" and d.choice == 1 for d in o.decisions)
+            if refused or o.kind == "cutoff":
+                continue
+            n += 1
+            if o.kind != "raise":
+                bad = bad or o
+        if n == 0:
+            raise AnalysisError("no path for a secure URL without TLS support")
+        ctx.ob(f"_http:connect:proxy={pk}:secure-url-without-tls-support-refused", bad is None,
+               f"{n} paths: a wss target raises when the ssl module is missing" if bad is None else
+               f"HAVE_SSL false (Python built without ssl): connect() to a wss:// URL returns {bad.value!r} -- the session goes on in clear text instead of being refused",
+               ctx.index.loc(ctx.index.func("_http:connect").node), {"path": path_text(bad)} if bad else None)
 
 
 import re
@@ -345,6 +372,7 @@ def r5(ctx):
     ctx.ob("_http:connect:tuple-agreement", bad is None, f"{n} returning paths" if bad is None else
            f"returns {bad.value!r} with effects {[repr(e) for e in bad.effects][:6]}", idx.loc(idx.func("_http:connect").node),
            {"path": path_text(bad)} if bad else None)
+    no_tls_refused(ctx)
     # run_forever picks the dispatcher from parse_url(url)[i]: i must be the position of the security flag
     Ip = Interp(idx, Config(stubs={"urllib.parse.urlparse": _urlparse_stub}))
     outs_p = Ip.explore(lambda run: Ip.call(run, Ip.make_fn(run, PU), [Sym("url", "str")], {}, None))
@@ -399,3 +427,50 @@ def r5(ctx):
         e = next((e for e in o.effects if e.name == "handshake"), None)
         ok = e is not None and e.args[:5] == (Sym("sock0", "obj"), Sym("url", "str"), Sym("h"), Sym("p"), Sym("r"))
         ctx.ob("_core:WebSocket.connect:handshake-arguments", ok, f"handshake({', '.join(map(repr, e.args)) if e else ''})", e.loc if e else "")
+
+
+@rule("R-C18-6", min_instances=2, title="the addresses handed to the connect loop are the resolver's answer, in the resolver's order (no sorting, filtering or re-ordering in between)")
+def r6(ctx):
+    idx = ctx.index
+    q = "_http:_get_addrinfo_list"
+    loc = idx.loc(idx.func(q).node)
+
+    def gai(I, run, args, kwargs, node):
+        k = len([e for e in run.effects if e.name == "getaddrinfo"])
+        v = Sym(f"resolved{k}", "obj")
+        run.effect("getaddrinfo", args, kwargs, node=node, ret=v)
+        return v
+
+    def gpi(I, run, args, kwargs, node):
+        return Tup((Sym("px.host", "str"), Sym("px.port", "int"), Sym("px.auth")))
+
+    I = Interp(idx, Config(stubs={"socket.getaddrinfo": gai, "_url:get_proxy_info": gpi}))
+
+    def body(run):
+        px = new_obj(run, "_http:proxy_info", "proxy", proxy_host=NONE, proxy_port=C(0), auth=NONE, no_proxy=NONE, proxy_protocol=C("http"))
+        return I.call(run, I.make_fn(run, q), [Sym("u.host", "str"), Sym("u.port", "int"), Sym("u.secure", "bool"), px], {}, None)
+
+    outs = ctx.count_paths(I.explore(body))
+    n = 0
+    for o in outs:
+        if o.kind != "return" or not isinstance(o.value, Tup):
+            continue
+        g = [e for e in o.effects if e.name == "getaddrinfo"]
+        if len(g) != 1:
+            ctx.ob(f"{q}:one-resolution:{n}", False, f"{len(g)} resolver calls on a returning path", loc, {"path": path_text(o)})
+            continue
+        n += 1
+        res = g[0].ret
+        touched = [e.name for e in o.effects if e is not g[0] and (e.name.startswith(res.name + ".") or e.name.startswith("store:" + res.name) or
+                                                                   any(isinstance(a, Sym) and a.key() == res.key() for a in e.args))]
+        got = o.value.items[0]
+        while isinstance(got, App) and got.op in ("list", "tuple") and len(got.args) == 1:
+            got = got.args[0]  # an order-preserving copy is the same answer
+        ok = got.key() == res.key() and not touched
+        direct = o.run.facts.get(Sym("px.host", "str").key())
+        ctx.ob(f"{q}:resolver-answer-untouched:{n}", ok, "returns socket.getaddrinfo(...)'s list as it is" if ok else
+               f"the address list returned is {o.value.items[0]!r} after {touched or 'a transformation'} on the resolver's answer: addresses are no longer tried in the resolver's order",
+               loc, {"path": path_text(o)})
+    if n < 2:
+        raise AnalysisError("direct and proxied resolution not both explored")
+
